@@ -2,7 +2,7 @@
 (***************************************************************************)
 (* Property C10 as a VALUE-STATE MACHINE.  The state is one typed atomic   *)
 (* value (or none / an error) under one XSD version; the actions are       *)
-(*   Construct(T, ts)  the lexical mapping of T applied to the literal ts  *)
+(*   Pick(T) ; Construct   the lexical mapping of T applied to a literal   *)
 (*   Cast(T)           F&O 19 cast of the current value to T               *)
 (*   Castable(T)       the boolean "cast would succeed"                    *)
 (*   ToStr          fn:string of the current value (canonical form)     *)
@@ -25,11 +25,12 @@ CONSTANTS MaxLen,      \* token-sequence length bound of the family alphabets
           Versions,    \* subset of {"1.0", "1.1"}
           Grid         \* "small" | "full": component grids of the date/time literals
 
-VARIABLES val, ver
+VARIABLES val,    \* None, a literal [k |-> "lit", t, ts], a typed value or an error
+          ver     \* XSD version, fixed by the initial state
 vars == <<val, ver>>
 
 None == [k |-> "none"]
-IsTyped(v) == v.k \notin {"none", "err"}
+IsTyped(v) == v.k \notin {"none", "lit", "err"}
 Usable(v) == IsTyped(v) /\ ~(v.k \in {"dec", "flo"} /\ v.ap)      \* approximate values are terminal
 
 ---------------------------------------------------------------------------
@@ -158,13 +159,17 @@ Strs(T) == AllSeqs(Alphabet(FamOf(T)), FamLen(FamOf(T))) \cup Probes(T) \cup Cro
 PrimTargets == {"untypedAtomic", "string", "float", "double", "decimal", "integer", "duration", "yearMonthDuration",
                 "dayTimeDuration", "dateTime", "time", "date", "gYearMonth", "gYear", "gMonthDay", "gDay", "gMonth",
                 "boolean", "base64Binary", "hexBinary", "anyURI", "QName"}
-(* chains: level 1 = no value, level 2 = constructed values (cast to every target), deeper levels
-   (cast to the primitive targets only) up to Depth; the level is not part of the state *)
+(* chains: level 1 = no value, level 2 = a literal of a type (one state per literal: TLC enumerates and
+   judges them in parallel), level 3 = constructed values (cast to every target), deeper levels (cast to
+   the primitive targets only) up to Depth; the level is not part of the state *)
 Lvl == TLCGet("level")
-MayCast(T) == Usable(val) /\ Lvl < Depth /\ (Lvl <= 2 \/ T \in PrimTargets) /\ TypeExists(T, ver)
+MayCast(T) == Usable(val) /\ Lvl < Depth /\ (Lvl <= 3 \/ T \in PrimTargets) /\ TypeExists(T, ver)
 Init == val = None /\ ver \in Versions
-Construct(T, ts) == /\ val.k = "none" /\ TypeExists(T, ver)
-                    /\ val' = Parse(T, Flat(ts), ver) /\ UNCHANGED ver
+Pick(T) == /\ val.k = "none" /\ TypeExists(T, ver)
+           /\ \E ts \in Strs(T) : val' = [k |-> "lit", t |-> T, ts |-> ts]
+           /\ UNCHANGED ver
+Construct == /\ val.k = "lit"
+             /\ val' = Parse(val.t, Flat(val.ts), ver) /\ UNCHANGED ver
 Cast(T) == /\ MayCast(T)
            /\ val' = CastTo(val, T, ver) /\ UNCHANGED ver
 Unjudged(w) == IsErr(w) /\ w.code \in {"LIMIT", "UNSPEC"}      \* pseudo errors: outside the specification
@@ -173,7 +178,8 @@ Castable(T) == /\ MayCast(T)
                   val' = IF Unjudged(w) THEN w ELSE [k |-> "bool", t |-> "boolean", b |-> ~IsErr(w)]
                /\ UNCHANGED ver
 ToStr == /\ Usable(val) /\ Lvl < Depth /\ val' = Str("string", Canon(val)) /\ UNCHANGED ver
-Next == \/ \E T \in Types : \E ts \in Strs(T) : Construct(T, ts)
+Next == \/ \E T \in Types : Pick(T)
+        \/ Construct
         \/ \E T \in Targets : Cast(T)
         \/ \E T \in Targets : Castable(T)
         \/ ToStr
@@ -210,7 +216,7 @@ LawBinary == (Usable(val) /\ val.k = "bin") =>
                 /\ HexOctets(HexEnc(val.o)) = val.o
                 /\ B64WellFormed(B64Enc(val.o)) /\ B64Octets(B64Enc(val.o)) = val.o
 
-(* laws of the lexical layer, evaluated once (in the initial states) over all enumerated literals *)
+(* laws of the lexical layer, evaluated on every literal state *)
 Base(T) ==
   CASE T \in {"nonPositiveInteger", "long", "nonNegativeInteger"} -> "integer"
     [] T = "negativeInteger" -> "nonPositiveInteger" [] T = "int" -> "long" [] T = "short" -> "int"
@@ -225,8 +231,8 @@ Base(T) ==
     [] OTHER -> T
 SameButType(a, b) == IF a.k = "str" \/ a.k = "flo" THEN TRUE ELSE [a EXCEPT !.t = b.t] = b
 LawLexical ==
-  val.k = "none" => \A T \in Types : TypeExists(T, ver) => \A ts \in Strs(T) :
-     LET s == Flat(ts)  v == Parse(T, s, ver) IN
+  val.k = "lit" =>
+     LET T == val.t  s == Flat(val.ts)  v == Parse(T, s, ver) IN
      /\ v = Parse(T, WsNorm(T, s), ver)                         \* the whitespace facet is pre-lexical and idempotent
      /\ WsNorm(T, WsNorm(T, s)) = WsNorm(T, s)
      /\ (WsFacet(T) = "collapse") => v = Parse(T, <<" ", "NL">> \o s \o <<"TAB">>, ver)
